@@ -2472,9 +2472,15 @@ pub mod config {
                 },
                 ..Default::default()
             };
+            // Read the whole input and hand it to the parser in one piece.
+            // The tokenizer discards a U+FEFF at the start of every chunk it
+            // is fed, so feeding it one read() at a time would make the
+            // result depend on where the reader's chunk boundaries fall.
+            let mut bytes = Vec::new();
+            input.read_to_end(&mut bytes)?;
             Ok(super::parse_document(super::RcDom::default(), opts)
                 .from_utf8()
-                .read_from(&mut input)?)
+                .one(&bytes[..]))
         }
 
         /// Convert an HTML DOM into a RenderTree.
